@@ -5,6 +5,7 @@ import PwVerif.Model.Mro
 import PwVerif.Model.Pool
 import PwVerif.Model.Lifecycle
 import PwVerif.Model.Stream
+import PwVerif.Model.Create
 import PwVerif.Gen.RunLoops
 /-!
 Line-protocol driver: `lake env lean --run PwVerif/Driver.lean < cases.txt`.
@@ -329,6 +330,8 @@ def step (line : String) : String :=
   | "pool" :: args => PoolIO.run args
   | "run" :: args => RunIO.run args
   | "c05" :: args => StreamIO.run args
+  | "c02create" :: _ =>
+    ",".intercalate ([false, true].flatMap fun p => [PwVerif.Create.WType.thread, .process, .remote].map fun t => PwVerif.Create.className t p)
   | "c13choice" :: args => c13choice args
   | _ => "bad-op"
 
